@@ -157,7 +157,7 @@ class InterpFunction(object):
 
 
 class Interp(object):
-    DEFAULT_LOOP_CAP = 400
+    DEFAULT_LOOP_CAP = 120
 
     def __init__(self, engine):
         self.E = engine
